@@ -19,9 +19,11 @@ class TrackingStream:
     timeout: a read never crosses the end of the current burst, so reads may
     return fewer bytes than requested (but never none while data remains)."""
 
-    def __init__(self, data: bytes, bursts=None):
+    def __init__(self, data: bytes, bursts=None, seekable=False):
         self.data = data
         self.pos = 0
+        self._seekable = seekable
+        self.seeks = 0
         self.calls = 0
         self.budget = 6 * len(data) + 16
         self.zero_reads = 0
@@ -74,8 +76,54 @@ class TrackingStream:
     def tell(self):
         return self.pos
 
+    def seekable(self):
+        return self._seekable
+
+    def seek(self, offset, whence=0):
+        if not self._seekable:
+            raise OSError("not seekable")
+        self.seeks += 1
+        base = {0: 0, 1: self.pos, 2: len(self.data)}[whence]
+        self.pos = max(0, min(len(self.data), base + offset))
+        return self.pos
+
+    def append(self, more: bytes):
+        """The source gains data after having been read to its end."""
+        self.data = self.data + more
+        self.budget += 6 * len(more) + 16
+        if self._ends is not None:
+            self._ends.append(len(self.data))
+
     def rest(self):
         return self.data[self.pos:]
+
+
+class PipeLike(io.RawIOBase):
+    """Non-seekable raw stream (like a pipe, stdin or a serial port object derived
+    from io.IOBase): it *has* tell()/seek() attributes, but they raise."""
+
+    def __init__(self, data: bytes, burst=None):
+        super().__init__()
+        self._data = data
+        self._p = 0
+        self._burst = burst
+
+    def readable(self):
+        return True
+
+    def seekable(self):
+        return False
+
+    def readinto(self, b):
+        n = len(b) if not self._burst else min(len(b), self._burst)
+        chunk = self._data[self._p:self._p + n]
+        b[:len(chunk)] = chunk
+        self._p += len(chunk)
+        return len(chunk)
+
+
+def pipe_stream(data: bytes, burst=None):
+    return io.BufferedReader(PipeLike(data, burst), buffer_size=64)
 
 
 class ScriptedSocket(socket.socket):
